@@ -134,15 +134,17 @@ _STRIP = z3.Function('py_strip', z3.StringSort(), z3.StringSort())
 
 _REPL1 = z3.Function('py_replace1', z3.StringSort(), z3.StringSort(), z3.StringSort(), z3.StringSort())
 _EXPAND = z3.Function('lower_expansion', z3.StringSort(), z3.IntSort())
-_EXPANDING = None
+_EXPANDING = {}
+_CASEFOLD = z3.Function('py_casefold', z3.StringSort(), z3.StringSort())
+_EXPAND_OF = {'upper': z3.Function('upper_expansion', z3.StringSort(), z3.IntSort()),
+              'casefold': z3.Function('casefold_expansion', z3.StringSort(), z3.IntSort())}
 
 
-def expanding_code_points():
-    """code points whose str.lower() is longer than one character: computed from the running CPython"""
-    global _EXPANDING
-    if _EXPANDING is None:
-        _EXPANDING = [chr(c) for c in range(0x110000) if len(chr(c).lower()) != 1]
-    return _EXPANDING
+def expanding_code_points(method='lower'):
+    """code points whose str.lower() (upper / casefold) is longer than one character: computed from the running CPython"""
+    if method not in _EXPANDING:
+        _EXPANDING[method] = [chr(c) for c in range(0x110000) if not (0xD800 <= c <= 0xDFFF) and len(getattr(chr(c), method)()) != 1]
+    return _EXPANDING[method]
 
 
 def replace1(I, s, a, b):
@@ -179,8 +181,18 @@ def str_fun(I, name, s, args):
                               z3.Length(r) == z3.Length(t) + _EXPAND(t), _EXPAND(t) >= 0,
                               has == (_EXPAND(t) >= 1)))
         return Sym(STR, r)
-    if name == 'upper':
-        return Sym(STR, _UPPER(t))
+    if name in ('upper', 'casefold'):
+        f = _UPPER if name == 'upper' else _CASEFOLD
+        r = f(t)
+        key = (name, t.get_id())
+        if key not in I.p.ghost:
+            I.p.ghost[key] = t
+            exp = expanding_code_points(name)
+            ex = _EXPAND_OF[name]
+            has = z3.Or(*[z3.Contains(t, z3.StringVal(c)) for c in exp[:400]]) if exp else z3.BoolVal(False)
+            I.p.assume(z3.And(z3.Length(r) == z3.Length(t) + ex(t), ex(t) >= 0, z3.Implies(ex(t) >= 1, has) if len(exp) <= 400 else z3.BoolVal(True),
+                              z3.Implies(has, ex(t) >= 1)))
+        return Sym(STR, r)
     if name == 'strip' and not args:
         r = _STRIP(t)
         key = ('strip', t.get_id())
